@@ -131,3 +131,44 @@ Qed.
 
 Theorem wellformed_never_penalised revised : react revised [] = CNone.
 Proof. reflexivity. Qed.
+
+(* ---- attribute discard removes the malformed attribute and nothing else *)
+Lemma kept_exactly fs attrs a : In a (kept_attrs fs attrs) <-> In a attrs /\ own_error fs a <> Some CDiscard.
+Proof.
+  unfold kept_attrs. rewrite filter_In. unfold stays. split; intros [H1 H2]; split; try exact H1.
+  - intros E. rewrite E in H2. discriminate.
+  - destruct (own_error fs a) as [[| | | |]|]; try reflexivity. exfalso. apply H2. reflexivity.
+Qed.
+
+Lemma kept_wellformed fs attrs a : In a attrs -> own_error fs a = None -> In a (kept_attrs fs attrs).
+Proof. intros H E. apply kept_exactly. split; [exact H|rewrite E; discriminate]. Qed.
+
+(* whether an attribute stays does not depend on what stood before it or after it *)
+Lemma kept_app fs l1 l2 : kept_attrs fs (l1 ++ l2)%list = (kept_attrs fs l1 ++ kept_attrs fs l2)%list.
+Proof. unfold kept_attrs. apply filter_app. Qed.
+
+Lemma kept_all fs attrs : (forall a, In a attrs -> own_error fs a <> Some CDiscard) -> kept_attrs fs attrs = attrs.
+Proof.
+  induction attrs as [|a r IH]; intros H; [reflexivity|].
+  unfold kept_attrs in *. cbn [filter]. unfold stays at 1.
+  assert (Ha : own_error fs a <> Some CDiscard) by (apply H; left; reflexivity).
+  destruct (own_error fs a) as [[| | | |]|]; try (f_equal; apply IH; intros b Hb; apply H; right; exact Hb).
+  exfalso. apply Ha. reflexivity.
+Qed.
+
+(* with the class table of the current source: of the catalogue's attributes only ATOMIC_AGGREGATE and AGGREGATOR are
+   ever taken off a route *)
+Lemma only_aggregate_attributes_are_discarded fs attrs a :
+  In a catalogue_attrs -> In a attrs -> ~ In a (kept_attrs fs attrs) ->
+  a = "BGP_ATTR_TYPE_ATOMIC_AGGREGATE" \/ a = "BGP_ATTR_TYPE_AGGREGATOR".
+Proof.
+  intros Hc Ha Hn.
+  assert (E : own_error fs a = Some CDiscard).
+  { destruct (own_error fs a) as [[| | | |]|] eqn:E; try reflexivity; exfalso; apply Hn; apply kept_exactly; split; try exact Ha; rewrite E; discriminate. }
+  unfold own_error in E.
+  destruct (existsb _ fs); [discriminate|].
+  destruct (existsb _ fs); [|discriminate].
+  unfold catalogue_attrs in Hc. cbn [In] in Hc.
+  repeat (destruct Hc as [Hc|Hc]; [subst a; try (vm_compute in E; discriminate); auto|]).
+  destruct Hc.
+Qed.
